@@ -1,7 +1,7 @@
 (** C27 — directory uploads never write outside the destination. *)
 From Coq Require Import List NArith Bool.
 From Coq Require Import String.
-From MM Require Import Model.Fs Model.Untar Proofs.FsProofs Proofs.UntarProofs Proofs.UntarSafety.
+From MM Require Import Model.Fs Model.Untar Proofs.FsProofs Proofs.UntarProofs Proofs.UntarSafety Generated.C27.
 Import ListNotations.
 Local Open Scope string_scope.
 Local Open Scope list_scope.
@@ -58,3 +58,20 @@ Theorem C27_pre_fix_refuted :
   (exists init es, look (fst (extract false harness_dest (build_fs init) es)) harness_dest <> Some DirO).
 Proof. exact pre_fix_refuted_proof. Qed.
 Print Assumptions C27_pre_fix_refuted.
+
+(** Where the repaired UntarDirectory applies its checks, regenerated from
+    tar.go on this run: the link check on the entry path sits between
+    sanitizeTarPath and the switch, it includes the last component exactly
+    for directory and regular-file entries (the model's [checks_last]), the
+    hard-link target is checked including its last component, a
+    non-directory entry may not name the destination itself, and
+    ensureNoSymlinks inspects with Lstat, rejects links, and stops at the
+    first missing component. *)
+Theorem C27_source_facts :
+  gen_path_check_between_sanitize_and_switch = true /\
+  gen_check_last_kinds = map fst (filter (fun p => checks_last (snd p))
+      [("TypeDir", EDir ""); ("TypeLink", EHard "" ""); ("TypeReg", EReg "" ""); ("TypeSymlink", ESym "" "")]) /\
+  gen_hardlink_target_checked = true /\ gen_destination_itself_guard = true /\
+  gen_ensure_uses_lstat = true /\ gen_ensure_rejects_symlink = true /\ gen_ensure_stops_at_missing = true.
+Proof. repeat split; reflexivity. Qed.
+Print Assumptions C27_source_facts.
